@@ -103,6 +103,8 @@ func genGeneric(prop string, tweak func(g *genCtx), mix Mix) func(seed, run int6
 			case x < 11:
 				// a cycle no registration-time check can see, met while resolving
 				g.tmpl = (*genCtx).tmplCrossSiblingCycle
+			case x < 14:
+				g.tmpl = (*genCtx).tmplDeepSiblingGroups
 			}
 		}
 		if g.tmpl != nil {
